@@ -21,7 +21,7 @@ Inductive dyn :=
 
 (* ------------------------------------------------------------------ exceptions *)
 Inductive exn :=
-| BaseException | KeyboardInterrupt | SystemExit | GreenletTimeout
+| BaseException | KeyboardInterrupt | SystemExit | GreenletTimeout | WouldBlock
 | Exception_ | ValueError | TypeError | IndexError | KeyError | AttributeError
 | RuntimeError | AssertionError | UnicodeError | UnicodeEncodeError | UnicodeDecodeError
 | OSError | ConnectionRefusedError | ConnectionResetError | SocketTimeout | GaiError
@@ -31,7 +31,7 @@ Inductive exn :=
 Definition exn_parent (e : exn) : option exn :=
   match e with
   | BaseException => None
-  | KeyboardInterrupt | SystemExit | GreenletTimeout | Exception_ => Some BaseException
+  | KeyboardInterrupt | SystemExit | GreenletTimeout | WouldBlock | Exception_ => Some BaseException
   | ValueError | TypeError | IndexError | KeyError | AttributeError | RuntimeError
   | AssertionError | OSError | MemcacheError => Some Exception_
   | UnicodeError => Some ValueError
@@ -51,7 +51,7 @@ Definition exn_tag (e : exn) : Z :=
   | ConnectionRefusedError => 16 | ConnectionResetError => 17 | SocketTimeout => 18 | GaiError => 19
   | MemcacheError => 20 | MemcacheClientError => 21 | MemcacheUnknownCommandError => 22
   | MemcacheIllegalInputError => 23 | MemcacheServerError => 24 | MemcacheUnknownError => 25
-  | MemcacheUnexpectedCloseError => 26
+  | MemcacheUnexpectedCloseError => 26 | WouldBlock => 27
   end.
 Definition exn_eqb (a b : exn) : bool := exn_tag a =? exn_tag b.
 
